@@ -50,6 +50,22 @@ KINDS = ['pass', 'fail', 'error', 'xfail', 'uxs', 'sub:1,0,1', 'sub:2,0,0',
          'setup_err', 'teardown_err', 'cleanup_err', 'sysexit']
 
 
+def _c_filter(case):
+    # non-ASCII text in messages / names, outcome kinds, doctests
+    if case[0] == 'singles':
+        # (class names become FILE names: what the locale's file system
+        # encoding cannot spell is not the runner's to fix)
+        return case[1] in ('cp_msg', 'cp_name') and any(c > 127 for c in case[2])
+    return case[0] in ('str', 'kind', 'dkind') or (case[0] == 'cp_msg' and case[1] in (0, 0x2000, 0x10000))
+
+
+# the report files are written with open(..., 'w'): under a non-UTF-8 locale
+# that is another encoding
+ENV_PASSES = [{'name': 'C locale', 'argv': ['-X', 'utf8=0'],
+               'env': {'LC_ALL': 'C', 'LANG': 'C', 'PYTHONUTF8': '0', 'PYTHONCOERCECLOCALE': '0', 'PYTHONIOENCODING': 'utf-8'},
+               'filter': _c_filter}]
+
+
 def cases(tier, seed):
     for start in worlds.rot(range(0, 0x110000, BLK), seed):
         yield ['cp_msg', start, min(0x110000, start + BLK)]
@@ -83,6 +99,7 @@ def cases(tier, seed):
         for rep in (1, 2):
             yield ['kind', k, rep]
     yield ['import_error', None, None]
+    yield ['two_classes_subtests', None, None]
     # layers that run in subprocesses write their own report files into the
     # same directory: nothing may be lost or overwritten
     for shape in ('N1B2C1', 'A2B1i', 'A1B1C1d', 'U1A2'):
@@ -298,6 +315,10 @@ def structure_viol(spec, res, files, rep, why):
             # (subtests may append their parameters to the name)
             nhit = sum(c for k, c in cases_seen.items()
                        if k[2] != 'P' and k[0] == cls and (k[1] or '').startswith(mname))
+            distinct = len({k[1] for k in cases_seen if k[2] != 'P' and k[0] == cls and (k[1] or '').startswith(mname)})
+            want_distinct = len({e[1] for e in bad})
+            if nhit == len(bad) * n and distinct != want_distinct:
+                out.append(('failure_not_under_own_class_and_name', '%s: the %d bad events of %s.%s carry %d distinct names, the report shows %d distinct names: %s' % (why, len(bad), cls, mname, want_distinct, distinct, sorted(cases_seen))))
             if nhit != len(bad) * n:
                 out.append(('failure_not_under_own_class_and_name', '%s: %d bad events of %s.%s, %d failing testcases with that classname/name; testcases: %s' % (why, len(bad) * n, cls, mname, nhit, sorted(cases_seen))))
     return out
@@ -394,6 +415,20 @@ def run_case(case):
             vs0 = [('harness_no_children', why)]
         else:
             vs0 = []
+    elif kind == 'two_classes_subtests':
+        rep = 1
+        spec = {'layers': [], 'tests': [{'n': 'q0', 'l': None, 's': 'sub:2,1,0'},
+                                        {'n': 'q1', 'l': None, 's': 'sub:1,1,1'},
+                                        {'n': 'q2', 'l': None, 's': 'pass'}],
+                'bad_modules': ['vtw.broken', 'vtw.broken2']}
+        why = 'failing subtests in two classes, two import errors'
+        res, files = run_xml(spec)
+        # every import error has its own report entry
+        startup = [f for f in files if 'broken' in f]
+        if len(startup) != 2:
+            vs0 = [('import_errors_not_reported_separately', '%s: report files %s' % (why, sorted(files)))]
+        else:
+            vs0 = []
     elif kind == 'kind':
         rep = b
         spec = {'layers': [{'n': 'A', 'b': [], 'k': 'c', 'h': ['setUp', 'tearDown']}],
@@ -408,7 +443,7 @@ def run_case(case):
         res, files = run_xml(spec)
     sig = {'part': kind, 'what': (str(a) if kind in ('kind', 'dkind', 'modes') else (b if kind == 'str' else ''))}
     vs = check_files(res, files, why)
-    if kind == 'modes':
+    if kind in ('modes', 'two_classes_subtests'):
         vs += vs0
     if not files and not vs:
         vs.append(('no_report', why))
